@@ -170,7 +170,7 @@ func C20(r *drv.Run) {
 		ntrees, npat = 400, 150
 		plen = 5
 	}
-	r.Rule = fmt.Sprintf("exhaustive: every pattern of length <= %d over {a,b,.,*} with at most 3 stars x a directory holding every name of length <= 4 over {a,b,.} (118 files) and 3 sub-directories with matching names; generated trees of depth <= 3 (names such as a.txt.txt, abxb, .a, and names containing ? [ ] + { } blank backslash, which only '*' may treat specially) with relative and absolute multi-segment patterns, the trees also holding symbolic links to sibling directories and files and regular files with unusual permission bits (000, 200, 111). The selection is also observed end to end: the built command line tool run inside some of the trees with `find top 1 any` (every file holds one byte), alone, with -profile naming a file OUTSIDE the tree that is called like a file inside it, with -replace-mode plus a JSON output file, and with an absolute pattern into a sibling directory whose name begins like the working directory's; the set of file names in its JSON output must be the same set. Every parsed pattern is asked twice (and once from another directory in between): same answer. A working directory reached through a link and back (a/l/.. with l pointing elsewhere; decoys at the textually cleaned place; entries that are links to a file and to a directory): six patterns. Crowded and deep directories: one directory holding 255..4 097 (thorough ..20 011) entries, counts on both sides of 256, 1 024, 2 048, 4 096, files and sub-directories mixed, asked with wildcard and literal last and middle segments, and a chain of twelve directory levels asked literally and star by star; floor: a list of more than 2 048 files compared. Oracle: reference glob (segment-wise, backtracking '*') over the harness's own record of the tree; result sets compared after filepath.Clean; duplicates and listed directories are violations. Non-trivial = pattern containing '*' that selects a non-empty proper subset; distinct by (tree, pattern).", plen)
+	r.Rule = fmt.Sprintf("exhaustive: every pattern of length <= %d over {a,b,.,*} with at most 3 stars x a directory holding every name of length <= 4 over {a,b,.} (118 files) and 3 sub-directories with matching names; generated trees of depth <= 3 (names such as a.txt.txt, abxb, .a, and names containing ? [ ] + { } blank backslash, which only '*' may treat specially) with relative and absolute multi-segment patterns, the trees also holding symbolic links to sibling directories and files and regular files with unusual permission bits (000, 200, 111). The selection is also observed end to end: the built command line tool run inside some of the trees with `find top 1 any` (every file holds one byte), alone, with -profile naming a file OUTSIDE the tree that is called like a file inside it, with -replace-mode plus a JSON output file, and with an absolute pattern into a sibling directory whose name begins like the working directory's; the set of file names in its JSON output must be the same set. Every parsed pattern is asked twice (and once from another directory in between): same answer. A working directory reached through a link and back (a/l/.. with l pointing elsewhere; decoys at the textually cleaned place; entries that are links to a file and to a directory): six patterns. Crowded and deep directories: one directory holding 255..4 097 (thorough ..20 011) entries, counts on both sides of 256, 1 024, 2 048, 4 096, files and sub-directories mixed, asked with wildcard and literal last and middle segments (also with two more segments behind a wildcard that matches thousands of plain files), while the worker may hold 128 file descriptors, and a chain of twelve directory levels asked literally and star by star; floor: a list of more than 2 048 files compared. Oracle: reference glob (segment-wise, backtracking '*') over the harness's own record of the tree; result sets compared after filepath.Clean; duplicates and listed directories are violations. Non-trivial = pattern containing '*' that selects a non-empty proper subset; distinct by (tree, pattern).", plen)
 	r.Assumptions = []string{
 		"excluded as the property says: directory segments made only of stars, '.' and '..' segments",
 		"a doubled separator counts as one (as in any path); a trailing separator leaves an empty LAST segment, which matches only the empty name, i.e. no file",
@@ -355,9 +355,10 @@ func C20(r *drv.Run) {
 				switch {
 				case i%5 == 4:
 					nm := fmt.Sprintf("d%05d", i)
-					os.MkdirAll(filepath.Join(base, "big", nm), 0o755)
+					os.MkdirAll(filepath.Join(base, "big", nm, "sub"), 0o755)
 					os.WriteFile(filepath.Join(base, "big", nm, "x.txt"), []byte("x"), 0o644)
-					big.kids = append(big.kids, &refNode{name: nm, dir: true, kids: []*refNode{{name: "x.txt"}}})
+					os.WriteFile(filepath.Join(base, "big", nm, "sub", "y.txt"), []byte("x"), 0o644)
+					big.kids = append(big.kids, &refNode{name: nm, dir: true, kids: []*refNode{{name: "x.txt"}, {name: "sub", dir: true, kids: []*refNode{{name: "y.txt"}}}}})
 					lastDir = nm
 				case i%7 == 0:
 					nm := fmt.Sprintf("f%05d.dat", i)
@@ -387,6 +388,9 @@ func C20(r *drv.Run) {
 			cur.kids = append(cur.kids, &refNode{name: "leaf.txt"})
 			ctcs = append(ctcs, tcase{tree: tree, base: base})
 			for _, pat := range []string{"big/*.txt", "big/f*", "big/*", "big/*/x.txt", "big/d0*/x.txt", "big/f00001.txt", "big/" + lastDir + "/x.txt", "*/*/x.txt", "big/*9.txt",
+				// a wildcard directory segment with TWO more segments behind it: every plain file it matches is asked for a
+				// sub-directory (and is none) before the real sub-directories are reached
+				"big/*/sub/*.txt", "*/*/sub/y.txt", "big/*/s*/y*",
 				lit + "/*.txt", stars + "/leaf.txt", lit + "/leaf.txt", stars + "/*"} {
 				cps = append(cps, flatPat{len(ctcs) - 1, pat})
 			}
@@ -394,7 +398,7 @@ func C20(r *drv.Run) {
 		r.Exec(len(cps), drv.ExecOpts{Batch: 13}, func(i int) *drv.Item {
 			fp := cps[i]
 			tc := ctcs[fp.tc]
-			return &drv.Item{Case: wire.Case{Op: "glob", Pattern: fp.pat, Dir: tc.base}, Check: func(res *wire.Result) {
+			return &drv.Item{Case: wire.Case{Op: "glob", Pattern: fp.pat, Dir: tc.base, FdLimit: 128}, Check: func(res *wire.Result) {
 				before := r.NViolations()
 				check(tc.tree, tc.base, fp.pat, tc.base, i%29 == 0)(res)
 				if r.NViolations() == before && len(res.Files) > 2048 {
